@@ -81,6 +81,36 @@ pub fn dispatch(op: &str, kind: &str, a: &mut Args) -> Option<String> {
             let rate = a.f();
             tok(&rv::dist::Poisson::new_unchecked(rate).entropy())
         }
+        // ---- C12 / C03: DiscreteUniform<T> over integer kinds (the translator instantiates X with the real carrier)
+        // hand.DiscreteUniform.invcdf <kind> a b p   /  hand.DiscreteUniform.cdf <kind> a b x   (X = T = kind)
+        "hand.DiscreteUniform.invcdf" | "hand.DiscreteUniform.cdf" => {
+            use rv::dist::DiscreteUniform;
+            use rv::traits::*;
+            let (lo, hi) = (a.i(), a.i());
+            macro_rules! du {
+                ($t:ty) => {{
+                    let d = DiscreteUniform::<$t>::new_unchecked(lo as $t, hi as $t);
+                    if op.ends_with("invcdf") {
+                        let p = a.f();
+                        let x: $t = d.invcdf(p);
+                        format!("{}", x)
+                    } else {
+                        let x = a.i() as $t;
+                        tok(&<DiscreteUniform<$t> as Cdf<$t>>::cdf(&d, &x))
+                    }
+                }};
+            }
+            match kind {
+                "i8" => du!(i8),
+                "i16" => du!(i16),
+                "i32" => du!(i32),
+                "i64" => du!(i64),
+                "u8" => du!(u8),
+                "u16" => du!(u16),
+                "u32" => du!(u32),
+                _ => "NOOP".to_string(),
+            }
+        }
         "logsumexp" => {
             let xs = a.list(|a| a.f());
             tok(&xs.iter().logsumexp())
